@@ -28,6 +28,7 @@ func (c12) Classes() []sim.Class {
 	var cs []sim.Class
 	for _, e := range []string{"interpreter", "compiler"} {
 		cs = append(cs, sim.Class{Name: "swarm", Engine: e, Quick: 700, Thorough: 40000, RunTimeoutSec: 120})
+		cs = append(cs, sim.Class{Name: "listener-sets-over-caches", Engine: e, Quick: 800, Thorough: 8000, RunTimeoutSec: 120})
 	}
 	return cs
 }
@@ -51,7 +52,8 @@ type rtDesc struct {
 	Alloc      string `json:"allocator"` // default | slice | spare
 	NoDebug    bool   `json:"debug_info_off"`
 	Custom     bool   `json:"custom_sections"`
-	Listen     string `json:"listeners"` // none | all | subset
+	Listen     string `json:"listeners"` // none | all | subset | set | set+alias
+	ListenSet  []int  `json:"listener_set,omitempty"`
 	EnsureTerm bool   `json:"close_on_context_done"`
 }
 
@@ -60,12 +62,28 @@ func (d rtDesc) String() string {
 }
 
 type sliceMem struct {
-	buf   []byte
-	spare bool
-	max   uint64
+	buf    []byte
+	spare  bool
+	poison bool // reserve-max / commit-on-Reallocate style: bytes beyond the committed size are NOT zero
+	max    uint64
 }
 
 func (m *sliceMem) Reallocate(size uint64) []byte {
+	if m.poison {
+		if m.buf == nil {
+			m.buf = make([]byte, 0, m.max)
+			full := m.buf[:m.max]
+			for i := range full {
+				full[i] = 0xAA
+			}
+		}
+		old := uint64(len(m.buf))
+		m.buf = m.buf[:size]
+		for i := old; i < size; i++ {
+			m.buf[i] = 0 // commit: newly exposed bytes are zeroed by the allocator
+		}
+		return m.buf
+	}
 	if uint64(cap(m.buf)) >= size {
 		m.buf = m.buf[:size]
 		return m.buf
@@ -131,12 +149,25 @@ func runOne(engine string, d rtDesc, shared wazero.CompilationCache, dir string,
 			}
 			return nil
 		}))
+	case "set", "set+alias":
+		in := map[uint32]bool{}
+		for _, i := range d.ListenSet {
+			in[uint32(i)] = true
+		}
+		cctx = experimental.WithFunctionListenerFactory(cctx, experimental.FunctionListenerFactoryFunc(func(def api.FunctionDefinition) experimental.FunctionListener {
+			if in[def.Index()] {
+				return nopListener{&lcount}
+			}
+			return nil
+		}))
 	}
 	switch d.Alloc {
 	case "slice":
 		cctx = experimental.WithMemoryAllocator(cctx, experimental.MemoryAllocatorFunc(func(cap, max uint64) experimental.LinearMemory { return &sliceMem{max: max} }))
 	case "spare":
 		cctx = experimental.WithMemoryAllocator(cctx, experimental.MemoryAllocatorFunc(func(cap, max uint64) experimental.LinearMemory { return &sliceMem{max: max, spare: true} }))
+	case "commit":
+		cctx = experimental.WithMemoryAllocator(cctx, experimental.MemoryAllocatorFunc(func(cap, max uint64) experimental.LinearMemory { return &sliceMem{max: max, poison: true} }))
 	}
 	rt := wazero.NewRuntimeWithConfig(cctx, cfg)
 	defer func() {
@@ -191,6 +222,15 @@ func runOne(engine string, d rtDesc, shared wazero.CompilationCache, dir string,
 		v, _ := mem.ReadUint32Le(uint32(8 * c))
 		st += fmt.Sprintf("%d,", int32(v))
 	}
+	st += " pagewords="
+	for pg := uint32(0); pg < mem.Size()/65536; pg++ {
+		// the first and last word of every page beyond the first: grown pages must read as zero
+		if pg > 0 {
+			a, _ := mem.ReadUint32Le(pg * 65536)
+			b, _ := mem.ReadUint32Le(pg*65536 + 65532)
+			st += fmt.Sprintf("%x/%x,", a, b)
+		}
+	}
 	st += " globals="
 	for g := 0; g < plan.NGlobals; g++ {
 		st += fmt.Sprintf("%d,", int32(uint32(mod.ExportedGlobal(fmt.Sprintf("g%d", g)).Get())))
@@ -201,6 +241,10 @@ func runOne(engine string, d rtDesc, shared wazero.CompilationCache, dir string,
 
 func (c12) Run(t *tape.Tape, cfg sim.Config) (res sim.Result) {
 	o := plan.Opts{MinFuncs: 3, MaxFuncs: 8, MaxAtoms: 6, Host: true, Traps: true, Grow: true, Table: true, Segments: true, HostTags: 4, GRef: true}
+	focus := cfg.Class == "listener-sets-over-caches"
+	if focus || t.Chance(1, 4) {
+		o.MinFuncs, o.MaxFuncs, o.MaxAtoms = 66, 140, 3 // more functions than one 64-bit word of anything
+	}
 	p := plan.Generate(t, o)
 	p.Name = "pn"
 	bin := p.Encode()
@@ -215,6 +259,14 @@ func (c12) Run(t *tape.Tape, cfg sim.Config) (res sim.Result) {
 			st.grow = 1
 		}
 		script = append(script, st)
+	}
+	if focus {
+		// call the functions whose listeners come and go between the runtimes
+		for i := 5; i < len(p.Funcs)+5 && len(script) < 60; i++ {
+			if (i%64 < 12 || t.Chance(1, 10)) && i-5 < len(p.Funcs) {
+				script = append(script, callStep{fn: i - 5, arg: int32(t.Choose(200))})
+			}
+		}
 	}
 	base, err := runOne(cfg.Engine, rtDesc{Cache: "none", Alloc: "default", Listen: "none"}, nil, "", bin, p, script)
 	if err != nil {
@@ -231,15 +283,43 @@ func (c12) Run(t *tape.Tape, cfg sim.Config) (res sim.Result) {
 	var descs []rtDesc
 	sharedUsers, dirUsers := 0, 0
 	var shape []string
+	// a sparse base set of function indexes for the index-based listener selections; runtimes use the
+	// base set itself or the base set plus "aliases" 64 positions away (bitmap-word aliasing)
+	nf := len(p.Funcs) + 8
+	var baseSet []int
+	for i := 0; i < nf; i++ {
+		if t.Chance(1, 6) {
+			baseSet = append(baseSet, i)
+		}
+	}
 	for i := 0; i < n; i++ {
 		d := rtDesc{
 			Cache:      tape.Pick(t, []string{"shared", "dir", "none", "private", "shared", "dir"}),
 			CapFromMax: t.Chance(1, 2),
-			Alloc:      tape.Pick(t, []string{"default", "slice", "spare"}),
+			Alloc:      tape.Pick(t, []string{"default", "slice", "spare", "commit"}),
 			NoDebug:    t.Chance(1, 2),
 			Custom:     t.Chance(1, 2),
-			Listen:     tape.Pick(t, []string{"none", "all", "subset"}),
+			Listen:     tape.Pick(t, []string{"none", "all", "subset", "set", "set+alias"}),
 			EnsureTerm: t.Chance(1, 3),
+		}
+		if focus {
+			// every runtime on a shared cache object, listener selections by function index only
+			d.Cache = tape.Pick(t, []string{"dir", "shared", "dir"})
+			d.Listen = tape.Pick(t, []string{"set+alias", "set", "none"})
+		}
+		switch d.Listen {
+		case "set":
+			d.ListenSet = baseSet
+		case "set+alias":
+			d.ListenSet = append([]int(nil), baseSet...)
+			for _, j := range baseSet {
+				if j+64 < nf && t.Chance(1, 2) {
+					d.ListenSet = append(d.ListenSet, j+64)
+				}
+				if j-64 >= 0 && t.Chance(1, 2) {
+					d.ListenSet = append(d.ListenSet, j-64)
+				}
+			}
 		}
 		descs = append(descs, d)
 		shape = append(shape, d.String())
